@@ -2,7 +2,7 @@
 from __future__ import annotations
 
 from .harness import Explorer
-from .rules import part, wrappers, pent, sysz
+from .rules import part, wrappers, pent, sysz, mcsops
 
 
 def _class_of(table, key):
@@ -40,6 +40,21 @@ def C02(rep, prog, tier):
     part.check_all(rep, ex, only=("inference.consistency_sat.consistency",))
 
 
+def C03(rep, prog, tier):
+    rep.explanation = ("C03: System W, both back-ends: soft/hard items of the two minimal-correction-set computations, the "
+                       "subset test (evaluated on all small families), the tie recursion and its constraints, start index")
+    ex = Explorer(prog, rep)
+    table = wrappers.dispatch(rep, ex)
+    for key, name in ((("system-w", False), "rc2"), (("system-w", True), "z3")):
+        cls = _class_of(table, key)
+        if cls:
+            be = mcsops.Backend(name, cls, lex=False)
+            mcsops.w_rec(rep, ex, be)
+    wrappers.shortcut_guard(rep, ex)
+    wrappers.shortcut_dominance(rep, ex)
+    part.check_all(rep, ex)
+
+
 def C06(rep, prog, tier):
     rep.explanation = ("C06: tolerance-partition obligations PART.* on consistency/consistency_indices (scope of every "
                        "satisfiability test, split, balance, terminal decisions, advance, siblings); diagnostics flags; refusal")
@@ -51,4 +66,4 @@ def C06(rep, prog, tier):
     wrappers.shortcut_dominance(rep, ex)
 
 
-CHECKS = {"C01": C01, "C02": C02, "C06": C06}
+CHECKS = {"C01": C01, "C02": C02, "C03": C03, "C06": C06}
